@@ -32,7 +32,10 @@ def strip_unenforced(doc):
             keep = []
             for k in s["required"]:
                 ps = s["properties"].get(k)
-                nullable = ps is None or ps is True or oracle.valid_against(ps, None, defs)
+                try:
+                    nullable = ps is None or ps is True or oracle.valid_against(ps, None, defs)
+                except RecursionError:      # ill-founded reference cycle: the oracle cannot decide
+                    nullable = True         # (keeps the member out of the judged constraints)
                 if not nullable:
                     keep.append(k)   # a missing nullable member deserialises as None: not a represented constraint
             s["required"] = keep
